@@ -50,15 +50,15 @@ type C18SnapDBI struct {
 }
 
 type C18Case struct {
-	Mode    string       `json:"mode"` // native | shadow
-	FV      uint32       `json:"fv"`
-	CV      uint32       `json:"cv"`
-	Pre     []C18Pre     `json:"pre"`
-	Snap    []C18SnapDBI `json:"snap"`
-	MapKB   int          `json:"map_kb"`
-	Cancel  bool         `json:"cancel,omitempty"`
-	Reader  bool         `json:"reader,omitempty"`
-	Inject  string       `json:"inject"` // label of the injected failure (generator's intent; the oracle does not trust it)
+	Mode   string       `json:"mode"` // native | shadow
+	FV     uint32       `json:"fv"`
+	CV     uint32       `json:"cv"`
+	Pre    []C18Pre     `json:"pre"`
+	Snap   []C18SnapDBI `json:"snap"`
+	MapKB  int          `json:"map_kb"`
+	Cancel bool         `json:"cancel,omitempty"`
+	Reader bool         `json:"reader,omitempty"`
+	Inject string       `json:"inject"` // label of the injected failure (generator's intent; the oracle does not trust it)
 }
 
 var c18Names = []string{"d0", "d1", "d2", "d3", "n0", "n1"}
@@ -146,7 +146,7 @@ func checkC18(c C18Case, o *vcore.Obs) error {
 	defer cancel()
 
 	// ---- pre-existing content
-	mir := model.NewMirror() // shadow mode reference
+	mir := model.NewMirror()              // shadow mode reference
 	nat := map[string]map[string][]byte{} // native mode reference: dbi -> key -> stored bytes
 	natKind := map[string]string{}
 	natNewFlags := map[string]uint{}
